@@ -151,14 +151,24 @@ class NpShim:
     def allclose(self, a, b, rtol=1e-05, atol=1e-08, equal_nan=False):
         if _has_sym(a) or _has_sym(b):
             USED.add("np.allclose")
-            if self._allclose == "false":
+            def _all_zero(v):
+                try:
+                    arr = np.asarray(v, dtype=object)
+                    return arr.size > 0 and not _has_sym(arr) and all(float(z) == 0.0 for z in arr.flat)
+                except Exception:
+                    return False
+
+            zero_guard = _all_zero(a) or _all_zero(b)  # the one pattern of the clean tree: allclose(driver, zeros) before a warning
+            if self._allclose == "false" and zero_guard:
+                # = the drivers are assumed not to be within 1e-8 of zero throughout (an input-space restriction, stated per check)
                 return False
-            if self._allclose == "nondet":
+            if self._allclose == "nondet" and zero_guard:
                 # only guards a logging.warning in flodym: both outcomes are explored, values unconstrained
                 c = sym.ctx()
                 c._nd = getattr(c, "_nd", 0) + 1
                 return c.branch(z3.Bool(f"nondet_allclose_{c._nd}"))
-            # "model": numpy's documented definition: all(|a - b| <= atol + rtol * |b|), as one merged term
+            # "model", and every call that is not the zero-driver guard whatever the mode (a comparison of unknown role must not
+            # be answered by assumption): numpy's documented definition all(|a - b| <= atol + rtol * |b|), as one merged term
             A = np.asarray(a, dtype=object)
             B = np.asarray(b, dtype=object)
             conj = []
@@ -202,6 +212,19 @@ class NpShim:
                     out[idx] = x[idx] if bool(ci) else y[idx]
             return out.view(SymArr) if out.shape else out[()]
         return np.where(cond, *xy)
+
+    def argmax(self, a, axis=None, **k):
+        """np.argmax of a 1-d boolean mask with symbolic entries (the usual "first position where ..." idiom): the position
+        is decided by branching on the entries in order (one path per position, plus the all-False path, which gives 0)"""
+        if isinstance(a, np.ndarray) and a.dtype == object and any(isinstance(m, SymBool) for m in a.flat):
+            if a.ndim != 1 or axis not in (None, 0, -1) or k or not all(isinstance(m, (SymBool, bool, np.bool_)) for m in a.flat):
+                raise ModelGap("np.argmax on symbolic values other than a 1-d boolean mask")
+            USED.add("np.argmax (first true entry, by branching)")
+            for i, m in enumerate(a):
+                if bool(m):
+                    return i
+            return 0
+        return np.argmax(a, axis=axis, **k)
 
     def nan_to_num(self, x, copy=True, nan=0.0, posinf=None, neginf=None):
         """np.nan_to_num on symbolic reals: an entry whose NaN flag holds becomes `nan` (default 0.0); infinities do not exist
@@ -441,7 +464,7 @@ def default_plan(allclose="nondet"):
         ("flodym.flodym_arrays", "np", NpShim()),
         ("flodym.stocks", "np", NpShim(allclose=allclose)),
         ("flodym.stocks", "solve_triangular", solve_triangular_stub),
-        ("flodym.lifetime_models", "np", NpShim()),
+        ("flodym.lifetime_models", "np", NpShim(allclose=allclose)),
         ("flodym.lifetime_models", "scipy", ScipyShim),
         ("flodym.mfa_system", "np", NpShim()),
         ("flodym.mfa_system", "max", merged_max),
